@@ -71,10 +71,16 @@ def states(tier, seed):
     # request layouts: cross sections listed BEFORE the structure functions, which are requested with the same kinematic dicts (y included), and every
     # cross-section point requested twice - the structure functions a cross section is built from are shared objects of the run, and the combination
     # must hold whatever was assembled from them before
-    for lay in ("xs-first", "dup"):
+    for lay in ("xs-first", "dup", "rev"):
         for (p, pr), (h, sc), tmc in itertools.product([("EM", "electron"), ("NC", "positron"), ("CC", "neutrino"), ("CC", "antineutrino")], [("total", "ZM-VFNS"), ("charm", "FFNS3")], [0, 1]):
             for fam in ("unpol", "pol"):
+                if lay == "rev" and fam == "pol":
+                    continue  # a single cross-section kind: no order to reverse
                 out.append({"family": fam, "process": p, "projectile": pr, "heavyness": h, "scheme": sc, "pto": 1, "tmc": tmc, "layout": lay})
+    # every cross-section kind as the FIRST one requested at the shared points (rotations of the kind list): whatever the first request leaves behind is what the others meet
+    for k in range(1, len(XS_UNPOL)):
+        for p, pr in (("NC", "positron"), ("CC", "neutrino"), ("NC", "neutrino")):
+            out.append({"family": "unpol", "process": p, "projectile": pr, "heavyness": "total", "scheme": "ZM-VFNS", "pto": 1, "tmc": 0, "layout": f"rot{k}"})
     return out
 
 
@@ -89,6 +95,11 @@ def execute(st):
         sfk = ("g4", "gL", "g1")
     obs = {}
     lay = st.get("layout", "sf-first")
+    if lay.startswith("rot"):
+        k = int(lay[3:])
+        xs_kinds = list(xs_kinds[k:]) + list(xs_kinds[:k])
+    if lay == "rev":
+        xs_kinds = list(reversed(xs_kinds))  # together with the default order every ordered pair (kind A requested before kind B) occurs
     sfpts = sorted({(x, q2) for x, q2, y in POINTS})
     if lay == "xs-first":
         shared = [cards.kin(x, q2, y) for x, q2, y in POINTS]
